@@ -65,9 +65,16 @@ func c18Body(rng *rand.Rand, who int, n int) (string, []c18Member) {
 				`{"jsonrpc":"2.0",%s"method":"m","params":[%q],"error":{"code":1,"message":"x"}}`,
 				`{"jsonrpc":"2.0",%s"method":"m","params":[%q],"zz":1}`,
 				`{%s"method":"m","params":[%q]}`,
-			}[rng.Intn(5)], idf, tag))
+				// no method at all: not a request - with nothing else, or shaped like a reply
+				`{"jsonrpc":"2.0",%s"params":[%q]}`,
+				`{"jsonrpc":"2.0",%s"result":[%q]}`,
+				`{"jsonrpc":"2.0",%s"error":{"code":1,"message":%q}}`,
+			}[rng.Intn(8)], idf, tag))
 		default:
 			id := ids[rng.Intn(len(ids))]
+			if rng.Intn(8) == 0 {
+				tag += "E" // this call's handler fails (see the handler)
+			}
 			ms = append(ms, c18Member{"c", id, tag})
 			parts = append(parts, fmt.Sprintf(`{"jsonrpc":"2.0","id":%s,"method":"m","params":[%q]}`, id, tag))
 		}
@@ -93,6 +100,9 @@ func TestC18(t *testing.T) {
 		mu.Unlock()
 		if rand.Intn(4) == 0 {
 			time.Sleep(time.Duration(rand.Intn(200)) * time.Microsecond)
+		}
+		if strings.HasSuffix(p[0], "E") { // a failure whose data cannot be encoded: still an answer, for this call and its neighbours
+			return nil, &jrpc2.Error{Code: 7, Message: "failed " + p[0], Data: json.RawMessage(`{"partial":`)}
 		}
 		return p[0], nil
 	}}, &jhttp.BridgeOptions{Server: &jrpc2.ServerOptions{Concurrency: 8}})
@@ -235,6 +245,21 @@ func TestC18(t *testing.T) {
 			}
 			ci := 0
 			for _, ob := range objs {
+				// a call whose handler failed is answered with that failure (code 7), in its place
+				if e, has := ob["error"]; has && ci < len(calls) && strings.HasSuffix(calls[ci].tag, "E") && string(ob["id"]) == calls[ci].id {
+					var eo struct {
+						Code    int
+						Message string
+					}
+					if json.Unmarshal(e, &eo) == nil && eo.Code == 7 {
+						if eo.Message != "failed "+calls[ci].tag {
+							ok = false
+							res.Violatef("a response was relabelled with another call's id (or carries another caller's result)", in, "object %v, expected the failure of call %v", ob, calls[ci])
+						}
+						ci++
+						continue
+					}
+				}
 				if r, has := ob["result"]; has {
 					var tag string
 					json.Unmarshal(r, &tag)
